@@ -390,7 +390,8 @@ def r_cond_pair(e, R):
     if okc:
         it = rl[0].iter
         cv = it.args[0] if isinstance(it, ast.Call) and it.args else None
-        okd = isinstance(cv, ast.Name) and any("_count()" in norm(d) for d in e.local_defs(w, cv.id))
+        defs_ = e.local_defs(w, cv.id) if isinstance(cv, ast.Name) else [cv] if cv is not None else []
+        okd = bool(defs_) and all(_is_recursion_level(d) for d in defs_)
         dn = [n for n in g.nodes if n.kind == "stmt" and isinstance(n.ast, ast.Assign) and isinstance(n.ast.targets[0], ast.Name) and isinstance(cv, ast.Name) and n.ast.targets[0].id == cv.id]
         R.check(okd and bool(dn) and all(g.dominates(dn[0], l) for l in lrel), "R-COND-PAIR", "wait: the count is the lock's recursion level read before releasing",
                 w.short, "count = self._lock._semlock._count()", "the number of releases is not the recursion count at entry", e.loc(w, w.node))
@@ -415,6 +416,29 @@ def r_cond_pair(e, R):
         okt = len(c.args) == 2 and isinstance(c.args[0], ast.Constant) and c.args[0].value is True and isinstance(c.args[1], ast.Name) and c.args[1].id == w.params[1]
         R.check(okt, "R-COND-PAIR", "wait: blocks with the caller's timeout", w.short, norm(c), "the wait ignores the timeout argument or does not block", e.loc(w, c))
     R.floor("R-COND-PAIR", 7)
+
+
+def _is_recursion_level(d):
+    """the term equals `<lock>._semlock._count()` for every value of its atoms (the recursion level of an RLock is not bounded by
+    the semaphore's maxvalue, which is 1 for Lock *and* RLock): evaluated over sample values; unknown atoms are refused."""
+    from .. import guards
+
+    def classify(x):
+        if isinstance(x, ast.Call) and isinstance(x.func, ast.Attribute) and x.func.attr == "_count" and not x.args:
+            return "C"
+        if isinstance(x, ast.Attribute) and x.attr in ("maxvalue", "_maxvalue"):
+            return "MV"
+        return None
+    if not any(classify(x) == "C" for x in ast.walk(d)):
+        return False
+    try:
+        for C in (0, 1, 2, 5):
+            for MV in (1, 2, 7):
+                if guards.eval_guard(d, {"C": C, "MV": MV}, classify) != C:
+                    return False
+    except guards.Inconclusive as ex:
+        raise AnalysisError(f"Condition.wait: the release count `{norm(d)}` is not a term over the recursion level: {ex}")
+    return True
 
 
 def _stmts(f):
